@@ -141,6 +141,16 @@ SPEC = r"""
 // The control-flow reading of the property statement (C07), as spec functions.
 // Outcome of a statement: None = failed with a diagnostic, Some(escape) otherwise.
 // =========================================================================================
+// "a `for` over a non-iterable is a reported error" - at the iterator expression (not at the loop target, not at the keyword)
+pub open spec fn for_iter_error_at(w: W, stmt: Stmt, r: Result<Escape>) -> bool {
+    match stmt {
+        Stmt::For{lhs, iter, stmts} => match sem_expr(w, iter).0 {
+            Ok(iv) => sem_pairs(iv.v) is Err ==> (r matches Err(e) && (e matches Error::AtLoc{source, line, col} && line == iter.1.0 && col == iter.1.1)),
+            Err(_) => true,
+        },
+        _ => true,
+    }
+}
 pub open spec fn out(r: Result<Escape>) -> Option<Escape> {
     match r { Ok(e) => Some(e), Err(_) => None }
 }
@@ -489,6 +499,7 @@ SPEC_STMT = r"""
         (stmt is Expr || stmt is Declare || stmt is Assign || stmt is OpAssign) ==> (out(r), final(scopes).world()) == spec_stmt(old(scopes).world(), *stmt), // [C07:simple_statement_completes_or_fails_and_never_signals]
         stmt is Func ==> (out(r), final(scopes).world()) == spec_stmt(old(scopes).world(), *stmt), // [C07_C13_C20:a_function_declaration_validates_all_its_parameters_then_declares_the_name_and_never_signals]
         (out(r), final(scopes).world()) == spec_stmt(old(scopes).world(), *stmt), // [C07:statement_signal_is_the_documented_one]
+        for_iter_error_at(old(scopes).world(), *stmt, r), // [C16_C17_C18:a_for_over_a_non_iterable_is_reported_at_the_iterator_expression]
         r matches Err(e) ==> located(e), // [C17:statement_errors_are_located]
 """
 
@@ -725,7 +736,18 @@ C17_SCRIPTS = [
 ]
 
 
+def _expect_first_line(sub):
+    def judge(rc, out, err):
+        first = err.splitlines()[0] if err.splitlines() else ""
+        if rc != 103 or sub not in first:
+            return f"expected a reported error whose first line contains {sub!r}, got exit {rc}: {first!r}"
+        return None
+    return judge
+
+
 def replays(failed):
+    if any("a_for_over_a_non_iterable" in f for f in failed):
+        yield ("a `for` over a non-iterable is reported at the iterator expression", "fn total(n) {\n    for [i, x] in n {\n    }\n}\ntotal(5)\n", _expect_first_line(":2:19: "))
     want17 = any(":C17:" in f for f in failed)
     want07 = any(":C07" in f for f in failed) or not want17
     if want07:
